@@ -10,6 +10,7 @@ use sophia_api::{
     },
     term::Term,
 };
+use std::cmp::Ordering;
 use std::collections::{BTreeSet, HashMap};
 
 /// Computes whether two datasets are isomorphic.
@@ -92,14 +93,36 @@ where
 }
 
 fn prepare_dataset<D: Dataset>(d: &D) -> Result<PreparedDataset<D>, D::Error> {
-    d.quads()
+    let mut quads: PreparedDataset<D> = d
+        .quads()
         .map(|res| {
             res.map(|q| {
                 let (spo, g) = q.to_spog();
                 (spo.map(IsoTerm), g.map(IsoTerm))
             })
         })
-        .collect()
+        .collect::<Result<_, _>>()?;
+    // NB: the semantics of Dataset allows duplicate quads (e.g. the union graph of a dataset
+    // where several graphs share a triple), but they do not count: each quad is kept once
+    quads.sort_unstable_by(cmp_exact);
+    quads.dedup_by(|q1, q2| cmp_exact(q1, q2) == Ordering::Equal);
+    Ok(quads)
+}
+
+/// Compare quads term-wise, blank node labels included (unlike [`cmp_quads`])
+fn cmp_exact<T: Term>(q1: &Spog<IsoTerm<T>>, q2: &Spog<IsoTerm<T>>) -> Ordering {
+    for (t1, t2) in q1.0.iter().zip(q2.0.iter()) {
+        let ord = Term::cmp(&t1.0, t2.0.borrow_term());
+        if ord != Ordering::Equal {
+            return ord;
+        }
+    }
+    match (&q1.1, &q2.1) {
+        (None, None) => Ordering::Equal,
+        (None, Some(_)) => Ordering::Less,
+        (Some(_), None) => Ordering::Greater,
+        (Some(g1), Some(g2)) => Term::cmp(&g1.0, g2.0.borrow_term()),
+    }
 }
 
 type PreparedDataset<'a, D> = Vec<Spog<IsoTerm<DTerm<'a, D>>>>;
